@@ -258,6 +258,22 @@ func (t *Transaction) rowsFromTransactionCacheAndDatabase(table string, where []
 func (t *Transaction) checkIndexes() error {
 	// check for index conflicts.
 	tables := t.Cache.Tables()
+	// The indexes of the transaction cache keep a single row per value and
+	// are written without checks while the operations execute, so a
+	// duplicate among the rows of the transaction can overwrite, and then
+	// remove, the entry that would reveal it. Look for such duplicates by
+	// loading the rows into a scratch cache with the checks on.
+	scratch, err := cache.NewTableCache(t.Model, nil, t.logger)
+	if err != nil {
+		return err
+	}
+	for _, table := range tables {
+		for uuid, row := range t.Cache.Table(table).RowsShallow() {
+			if err := scratch.Table(table).Create(uuid, row, true); err != nil {
+				return err
+			}
+		}
+	}
 	for _, table := range tables {
 		tc := t.Cache.Table(table)
 		for _, row := range tc.RowsShallow() {
